@@ -3,7 +3,7 @@ from ..ir import AnalysisBroken, strip_targs, qmatch
 from ..graph import Graph
 from ..expr import access_path, path_str, reaching_defs, norm_cond, origins, leaves, defs_in_node, is_transparent_call
 from ..linear import linear, relation, fmt
-from .common import strip_casts, short, comparison, same_class_inline, deparam
+from .common import strip_casts, short, comparison, same_class_inline, deparam, once_init
 
 UNITS = []
 DRIVERS = ['api_context.cc']
@@ -23,6 +23,7 @@ EXPLANATION = (
     'destructor detaches itself; Attach pushes the very context it builds the token from; Scope attaches '
     'GetCurrent().SetValue(span key, span).')
 EXPLANATION += " C10.R3 also checks every caller of Stack::Resize (which keeps size_-1 frames) to come after the size_ increment. C10.R4: when the token destructor's Detach is conditional on token state, that state is only written behind a successful storage Detach. C10.R5: Context::GetValue returns a stored value only behind key.size() == key_length_ and memcmp(...) == 0 over that length."
+EXPLANATION += ' C10.R3 treats the membership test (bool result) direction-agnostically - every attached frame must be examined, by a loop bounded by size_ or a standard algorithm over [base_, base_+size_) - and resolves slot writes through reference locals and copy bounds through once-initialised locals. C10.R4 follows the Scope constructor through private helpers.'
 NOT_DECIDED = 'stack behaviour over arbitrary attach/detach sequences and depths; GetValue lookup order beyond the list shape.'
 
 CTX = 'opentelemetry::context::Context'
@@ -274,7 +275,7 @@ def rule_r3(ck, prog, rule='C10.R3', cls='opentelemetry::context::ThreadLocalCon
     incs = [p for p in g.points if p.n is not None and p.n['k'] == 'unop' and p.n['op'] == '++' and access_path(push, p.n['e']) == ('this', 'size_')] + \
            [p for p in g.points if p.n is not None and p.n['k'] == 'binop' and p.n['op'] == '+=' and access_path(push, p.n['lhs']) == ('this', 'size_')]
     writes = [p for p in g.points if p.n is not None and p.n['k'] == 'call' and p.n.get('op') == '=' and p.n.get('obj') is not None and
-              _once_init(push, p.n['obj'])['k'] == 'subscript']
+              once_init(push, p.n['obj'])['k'] == 'subscript']
     resz = g.calls('Stack::Resize')
     # Push stores into the first free slot and counts the frame exactly once. k(p) = how many increments of size_ have happened before
     # point p (0 or 1 on every path): the slot index has to be size_ - k(write) (the old size), the growth guard has to say
@@ -293,7 +294,7 @@ def rule_r3(ck, prog, rule='C10.R3', cls='opentelemetry::context::ThreadLocalCon
         once = g.exit.id not in g.reachable_from(g.entry, avoid=incs) and \
             not any(b_.id in g.reachable_from([q for (q, _l) in a_.succ]) for a_ in incs for b_ in incs)
         w = writes[0]
-        sub = _once_init(push, w.n['obj'])
+        sub = once_init(push, w.n['obj'])
         lin = linear(g, rd, push, sub['index'], w.ctx)
         kw = k_at(g.point_of.get((id(g.root_ctx), sub['i']), w))   # the slot is selected where the subscript is evaluated
         ok = once and kw is not None and lin == ({'this.size_': 1, '1': -1} if kw == 1 else {'this.size_': 1})
@@ -401,22 +402,6 @@ def rule_r4(ck, prog, rule='C10.R4'):
 
 
 
-def _once_init(f, idx):
-    """the initialiser of a local that is initialised once and never written again (casts stripped), else the node itself"""
-    for _ in range(4):
-        n = strip_casts(f, idx)
-        if n['k'] == 'ref' and n.get('sk') == 'local':
-            decls = [d for m in f.nodes if m['k'] == 'declstmt' for d in m['decls'] if d['id'] == n['id']]
-            inits = [d['init'] for d in decls if d.get('init') is not None and d['init'] >= 0]
-            is_reference = any(d['t'].rstrip().endswith('&') for d in decls)   # a reference is never re-bound: "writes" go to the referent
-            writes = [] if is_reference else [m for m in f.nodes for (v, s_, vx) in defs_in_node(f, m) if v == n['id'] and m['k'] != 'declstmt']
-            if len(inits) == 1 and not writes:
-                idx = inits[0]
-                continue
-        return n
-    return strip_casts(f, idx)
-
-
 def _resize_copy_bound(rz):
     """(copy loop, the std::min call that bounds it) of Resize: a for/while loop whose condition is `i < std::min(a, b)`, the bound
     possibly held in a local initialised once"""
@@ -424,7 +409,7 @@ def _resize_copy_bound(rz):
         cond = comparison(rz, lp['cnd'])
         if not cond or cond[0] not in ('<', '!='):
             continue
-        b = _once_init(rz, cond[2])
+        b = once_init(rz, cond[2])
         if b['k'] == 'call' and strip_targs(b.get('c', '')) == 'std::min' and len(b.get('args', [])) >= 2:
             return lp, b
     return None, None
